@@ -23,3 +23,9 @@ Theorem C34_wrappers_are_transparent : forall inner a args ret check j score,
   get_inner_trace (TSwitch args j inner ret score) a = get_inner_trace inner a.
 Proof. exact subtrace_through_wrappers. Qed.
 Print Assumptions C34_wrappers_are_transparent.
+
+(* ---- non-vacuity: concrete non-trivial programs and traces meeting the hypotheses above (proofs/GFIWitness.v) ---- *)
+From Proofs Require Import GFIWitness.
+Example C34_hypotheses_met : wft ex_r ex_rt /\ sites_live ex_rt.
+Proof. exact (conj ex_r_wft ex_r_sites_live). Qed.
+Print Assumptions C34_hypotheses_met.
